@@ -17,8 +17,37 @@ import (
 	"sync/atomic"
 	"time"
 
+	azip "github.com/itchio/arkive/zip"
 	"github.com/itchio/wharf/archiver"
 )
+
+// gateAt blocks reads inside the data of chosen entries until their gate is opened: the completion ORDER of
+// entries held by different workers is then chosen by the driver (a scheduler gate that needs no hook).
+type gateAt struct {
+	r     io.ReaderAt
+	gates []*entryGate
+}
+
+type entryGate struct {
+	index  int
+	name   string
+	lo, hi int64
+	ch     chan struct{}
+	once   sync.Once
+}
+
+func (g *entryGate) open() { g.once.Do(func() { close(g.ch) }) }
+
+func (s *gateAt) ReadAt(p []byte, off int64) (int, error) {
+	for _, g := range s.gates {
+		// the entry's first data read starts exactly at its data offset (other reads may overlap the range: every
+		// worker reads the tail of the archive to find the central directory)
+		if off == g.lo {
+			<-g.ch
+		}
+	}
+	return s.r.ReadAt(p, off)
+}
 
 type c19Line struct {
 	Case     int      `json:"case"`
@@ -40,6 +69,7 @@ type c19Line struct {
 	Partial   []string `json:"partial"` // entries incomplete in the snapshot
 	RestartErr string `json:"restarterr"`
 	ResumeFileLeft bool `json:"resumefileleft"`
+	Gated     string `json:"gated"` // gated scenario: held entries and the order in which they were let go
 }
 
 // slowAt delays reads inside [lo,hi) of the archive (the data of the first entry).
@@ -243,6 +273,137 @@ func cmdC19(args []string) error {
 					}
 				} else {
 					line.Err += " no crash snapshot (fewer OnEntryDone calls than expected)"
+				}
+				os.RemoveAll(dst)
+				os.RemoveAll(crashDir)
+				w.emit(line)
+			}
+		}
+		// ---- interrupted resumable extraction with a CHOSEN completion order: several entries are held inside their
+		// data (each blocks one worker) while everything else completes; they are then let go one at a time in a
+		// seeded order, and the kill is taken right after one of them completed while others are still in flight.
+		if zr, err := azip.NewReader(bytes.NewReader(zbytes), int64(len(zbytes))); err == nil {
+			cands := []*entryGate{}
+			nonDirEntries := 0
+			for i, f := range zr.File {
+				if f.FileInfo().IsDir() {
+					continue
+				}
+				nonDirEntries++
+				if f.FileInfo().Mode()&os.ModeSymlink == 0 && f.CompressedSize64 >= 1 {
+					if off, err := f.DataOffset(); err == nil {
+						cands = append(cands, &entryGate{index: i, name: f.Name, lo: off, hi: off + int64(f.CompressedSize64)})
+					}
+				}
+			}
+			for rep := 0; rep < 2 && len(cands) >= 3 && nonDirEntries >= 4; rep++ {
+				workers := []int{3, 4, 8, 16}[rng.Intn(4)]
+				nheld := 2
+				if workers >= 4 && len(cands) >= 4 && rng.Intn(2) == 0 {
+					nheld = 3
+				}
+				// hold entries early in the archive (so that many later entries complete behind them)
+				pool := cands
+				if len(pool) > 8 {
+					pool = pool[:8]
+				}
+				perm := rng.Perm(len(pool))[:nheld]
+				held := []*entryGate{}
+				for _, pi := range perm {
+					g := pool[pi]
+					held = append(held, &entryGate{index: g.index, name: g.name, lo: g.lo, hi: g.hi, ch: make(chan struct{})})
+				}
+				// held is in RELEASE order; the kill comes after the killAfter-th release completed
+				killAfter := 1 + rng.Intn(nheld-1)
+				line := mk("zip-resume", workers)
+				line.CrashAt = killAfter
+				desc := ""
+				for _, g := range held {
+					desc += fmt.Sprintf("%d ", g.index)
+				}
+				if os.Getenv("VERIF_DEBUG") != "" {
+					for _, g := range held {
+						fmt.Fprintf(os.Stderr, "gate %d %s [%d,%d)\n", g.index, g.name, g.lo, g.hi)
+					}
+				}
+				line.Gated = fmt.Sprintf("held entries (release order) %s- killed after release %d completed", desc, killAfter)
+				dst := filepath.Join(root, fmt.Sprintf("out-gate-%d", rep))
+				resumeFile := filepath.Join(root, fmt.Sprintf("gresume-%d", rep))
+				crashDir := filepath.Join(root, fmt.Sprintf("gcrash-%d", rep))
+				crashResume := filepath.Join(root, fmt.Sprintf("gcrash-resume-%d", rep))
+				heldName := map[string]int{}
+				for i, g := range held {
+					heldName[filepath.ToSlash(g.name)] = i
+				}
+				var mu sync.Mutex
+				others, released, snapped := 0, 0, false
+				freeCount := nonDirEntries - nheld
+				openAll := func() {
+					for _, g := range held {
+						g.open()
+					}
+				}
+				// a held entry that never gets read (should not happen) must not wedge the driver
+				watchdog := time.AfterFunc(8*time.Second, openAll)
+				settings := archiver.ExtractSettings{Consumer: nullConsumer(), Concurrency: workers, ResumeFrom: resumeFile,
+					OnEntryDone: func(name string) {
+						mu.Lock()
+						defer mu.Unlock()
+						if os.Getenv("VERIF_DEBUG") != "" {
+							fmt.Fprintf(os.Stderr, "done %s others=%d released=%d\n", name, others, released)
+						}
+						if hi, ok := heldName[name]; ok {
+							if hi == released-1 && !snapped && released == killAfter {
+								snapped = true
+								if b, err := os.ReadFile(resumeFile); err == nil {
+									line.ResumeVal = string(b)
+									os.WriteFile(crashResume, b, 0644)
+								}
+								os.MkdirAll(crashDir, 0755)
+								copyDir(dst, crashDir)
+								openAll()
+								return
+							}
+							if released < nheld && !snapped {
+								held[released].open()
+								released++
+							}
+							return
+						}
+						others++
+						if others == freeCount && released == 0 {
+							held[0].open()
+							released = 1
+						}
+					}}
+				if _, err := archiver.ExtractZip(&gateAt{r: bytes.NewReader(zbytes), gates: held}, int64(len(zbytes)), dst, settings); err != nil {
+					line.Err = "first run: " + err.Error()
+				}
+				watchdog.Stop()
+				if cs, err := snapshot(crashDir); err == nil {
+					for _, d := range diffSnap(want, cs) {
+						line.Partial = append(line.Partial, d)
+					}
+					if len(line.Partial) > 12 {
+						line.Partial = line.Partial[:12]
+					}
+					res, err := archiver.ExtractZip(bytes.NewReader(zbytes), int64(len(zbytes)), crashDir, archiver.ExtractSettings{Consumer: nullConsumer(), Concurrency: workers, ResumeFrom: crashResume})
+					if err != nil {
+						line.RestartErr = err.Error()
+					} else {
+						line.Dirs, line.Files, line.Syms = res.Dirs, res.Files, res.Symlinks
+					}
+					if s, err := snapshot(crashDir); err == nil {
+						line.Out = snapList(s)
+					}
+					if _, err := os.Stat(crashResume); err == nil {
+						line.ResumeFileLeft = true
+					}
+				} else {
+					// the gated schedule did not play out (the watchdog opened the gates): nothing to judge
+					fmt.Fprintf(os.Stderr, "c19: case %d: gated schedule did not play out (%s)\n", k, line.Gated)
+					os.RemoveAll(dst)
+					continue
 				}
 				os.RemoveAll(dst)
 				os.RemoveAll(crashDir)
